@@ -1,41 +1,137 @@
-//! Bit I/O for the model. Forward writer (LSB first, little endian) and a "backward stream"
-//! builder: values are pushed in the order the decoder will READ them; finish() emits the
-//! bytes of a Zstandard backward bitstream (decoder starts at the last byte, highest bit).
+//! Bit I/O for the model. Forward writer/reader (LSB first, little endian), a backward-stream builder
+//! (values pushed in the order the decoder READS them) and a backward reader.
 
 #[derive(Default, Clone)]
-pub struct FwdBits { pub bytes: Vec<u8>, acc: u64, n: u32 }
+pub struct FwdBits {
+    pub bytes: Vec<u8>,
+    acc: u64,
+    n: u32,
+}
 impl FwdBits {
-    pub fn new() -> Self { Self::default() }
-    pub fn put(&mut self, v: u64, nbits: u32) {
-        assert!(nbits <= 32 && (nbits == 64 || v >> nbits == 0), "value {v} does not fit {nbits} bits");
-        self.acc |= v << self.n; self.n += nbits;
-        while self.n >= 8 { self.bytes.push(self.acc as u8); self.acc >>= 8; self.n -= 8; }
+    pub fn new() -> Self {
+        Self::default()
     }
-    pub fn bits_written(&self) -> usize { self.bytes.len() * 8 + self.n as usize }
+    pub fn put(&mut self, v: u64, nbits: u32) {
+        assert!(nbits <= 32 && v >> nbits == 0, "value {v} does not fit {nbits} bits");
+        self.acc |= v << self.n;
+        self.n += nbits;
+        while self.n >= 8 {
+            self.bytes.push(self.acc as u8);
+            self.acc >>= 8;
+            self.n -= 8;
+        }
+    }
+    pub fn bits_written(&self) -> usize {
+        self.bytes.len() * 8 + self.n as usize
+    }
     /// pad with zero bits to a byte boundary
-    pub fn finish(mut self) -> Vec<u8> { if self.n > 0 { self.bytes.push(self.acc as u8); } self.bytes }
+    pub fn finish(mut self) -> Vec<u8> {
+        if self.n > 0 {
+            self.bytes.push(self.acc as u8);
+        }
+        self.bytes
+    }
+}
+
+/// Forward reader, LSB first.
+pub struct FwdReader<'a> {
+    src: &'a [u8],
+    pub pos: usize,
+}
+impl<'a> FwdReader<'a> {
+    pub fn new(src: &'a [u8]) -> Self {
+        FwdReader { src, pos: 0 }
+    }
+    pub fn get(&mut self, n: u32) -> Option<u32> {
+        if self.pos + n as usize > self.src.len() * 8 {
+            return None;
+        }
+        let mut v = 0u32;
+        for i in 0..n as usize {
+            let p = self.pos + i;
+            v |= (((self.src[p / 8] >> (p % 8)) & 1) as u32) << i;
+        }
+        self.pos += n as usize;
+        Some(v)
+    }
+    pub fn unget(&mut self, n: u32) {
+        self.pos -= n as usize;
+    }
+    pub fn bytes_used(&self) -> usize {
+        self.pos.div_ceil(8)
+    }
 }
 
 /// Items in decoder read order.
 #[derive(Default, Clone)]
-pub struct BackBits { items: Vec<(u64, u32)> }
+pub struct BackBits {
+    items: Vec<(u64, u32)>,
+}
 impl BackBits {
-    pub fn new() -> Self { Self::default() }
-    pub fn push(&mut self, v: u64, nbits: u32) { assert!(nbits == 0 || nbits <= 57 && v >> nbits == 0, "value {v} does not fit {nbits} bits"); if nbits > 0 { self.items.push((v, nbits)); } }
-    pub fn total_bits(&self) -> usize { self.items.iter().map(|x| x.1 as usize).sum() }
-    /// Bytes such that a reader starting at the top of the last byte, skipping zero padding and the
-    /// 1 marker, then reading MSB-first downwards, obtains the items in order.
+    pub fn new() -> Self {
+        Self::default()
+    }
+    pub fn push(&mut self, v: u64, nbits: u32) {
+        assert!(nbits <= 57 && (nbits == 0 || v >> nbits == 0) && (nbits > 0 || v == 0), "value {v} does not fit {nbits} bits");
+        if nbits > 0 {
+            self.items.push((v, nbits));
+        }
+    }
+    pub fn total_bits(&self) -> usize {
+        self.items.iter().map(|x| x.1 as usize).sum()
+    }
+    /// Bytes such that a reader starting at the top of the last byte, skipping zero padding and the 1
+    /// marker, then reading MSB-first downwards, obtains the items in order.
     pub fn finish(&self) -> Vec<u8> {
-        // Build the bit string from the END of the stream to the start: the last item read is at the
-        // lowest addresses. We create a forward LSB-first stream of: items reversed (each value's bits
-        // little endian), then the marker 1.
         let mut w = FwdBits::new();
         for &(v, n) in self.items.iter().rev() {
-            let mut v = v; let mut n = n;
-            while n > 32 { w.put(v & 0xFFFF_FFFF, 32); v >>= 32; n -= 32; }
+            let (mut v, mut n) = (v, n);
+            while n > 32 {
+                w.put(v & 0xFFFF_FFFF, 32);
+                v >>= 32;
+                n -= 32;
+            }
             w.put(v, n);
         }
         w.put(1, 1);
         w.finish()
+    }
+}
+
+/// Backward reader: `pos` = number of unread bits below the cursor. Reads past the start give zero bits and
+/// are recorded in `overrun`.
+pub struct BackReader<'a> {
+    src: &'a [u8],
+    pub pos: isize,
+}
+impl<'a> BackReader<'a> {
+    /// None if the last byte is zero (no end mark) or the stream is empty
+    pub fn new(src: &'a [u8]) -> Option<Self> {
+        let last = *src.last()?;
+        if last == 0 {
+            return None;
+        }
+        let top = 7 - last.leading_zeros() as isize; // index of the marker bit within the last byte
+        Some(BackReader { src, pos: (src.len() as isize - 1) * 8 + top })
+    }
+    pub fn get(&mut self, n: u32) -> u64 {
+        let mut v = 0u64;
+        for _ in 0..n {
+            self.pos -= 1;
+            let bit = if self.pos >= 0 { (self.src[self.pos as usize / 8] >> (self.pos as usize % 8)) & 1 } else { 0 };
+            v = (v << 1) | bit as u64;
+        }
+        v
+    }
+    /// look at the next n bits without consuming (zero filled past the start)
+    pub fn peek(&self, n: u32) -> u64 {
+        let mut v = 0u64;
+        let mut p = self.pos;
+        for _ in 0..n {
+            p -= 1;
+            let bit = if p >= 0 { (self.src[p as usize / 8] >> (p as usize % 8)) & 1 } else { 0 };
+            v = (v << 1) | bit as u64;
+        }
+        v
     }
 }
